@@ -42,6 +42,8 @@ Cases ==
   \* the intermediate file lives in a sub-directory: the inner include is still resolved against the
   \* directory of the path the (top-level) template was parsed with; a decoy sits next to the intermediate file
   \cup [g : {"nestedsub"}, top : 1..3, where : {"disk", "cache"}]
+  \* a target with no content at all (an empty file, an empty registered source): included, it inserts nothing
+  \cup [g : {"empty"}, top : 1..3, where : {"disk", "cache", "both-emptydisk", "both-emptycache"}]
   \cup [g : {"loop"}, top : 1..2]
   \cup [g : {"fail"}, top : 1..2, how : {"nonstring-int", "nonstring-nil", "nonstring-arr", "inner-error", "inner-syntax", "missing-nested"}]
 
@@ -59,7 +61,7 @@ ProgOf(x) ==
   CASE x.g = "basic" ->
          <<T(<<60>>), AssignW>> \o (IF x.arg = "assigned" THEN <<[t |-> "assign", name |-> <<109>>, e |-> Lit(S(RelOf(x)))]>> ELSE <<>>)
          \o <<Inc(IncArg(x)), T(<<62>>)>>
-    [] x.g = "nested" -> <<T(<<60>>), AssignW, Inc(Lit(S(F_LIQ))), T(<<62>>)>>
+    [] x.g \in {"nested", "empty"} -> <<T(<<60>>), AssignW, Inc(Lit(S(F_LIQ))), T(<<62>>)>>
     [] x.g = "nestedsub" -> <<T(<<60>>), AssignW, Inc(Lit(S(SUB_F))), T(<<62>>)>>
     [] x.g = "loop" -> <<[t |-> "for", tag |-> "for", var |-> VV, coll |-> [t |-> "range", a |-> Lit(IntV(1)), b |-> Lit(IntV(3))],
                          body |-> <<Inc(Lit(S(F_LIQ))), T(<<44>>)>>], Ob(Var(VV))>>
@@ -82,6 +84,9 @@ FilesOf(x) ==
                                      <<JoinPath(DirOf(TOPS[x.top]), G_LIQ), Body(NEST)>>,
                                      <<JoinPath(DirOf(Target(x)), G_LIQ), Body(DECOY)>> >> ELSE <<>>)
     [] x.g = "loop" -> << <<Target(x), Body(DISK)>> >>
+    [] x.g = "empty" -> (CASE x.where \in {"disk", "both-emptydisk"} -> << <<Target(x), <<>>>> >>
+                           [] x.where = "both-emptycache" -> << <<Target(x), Body(DISK)>> >>
+                           [] OTHER -> <<>>)
     [] x.g = "fail" ->
          (CASE x.how = "inner-error" -> << <<Target(x), <<T(<<97>>), Failing>>>> >>
             [] x.how = "inner-syntax" -> << <<Target(x), <<T(<<97>>)>>, "bad">> >>
@@ -94,6 +99,9 @@ CacheOf(x) ==
     [] x.g = "nestedsub" -> IF x.where = "cache" THEN << <<Target(x), <<T(<<40>>), Inc(Lit(S(G_LIQ))), T(<<41>>)>> >>,
                                                         <<JoinPath(DirOf(TOPS[x.top]), G_LIQ), Body(NEST)>>,
                                                         <<JoinPath(DirOf(Target(x)), G_LIQ), Body(DECOY)>> >> ELSE <<>>
+    [] x.g = "empty" -> (CASE x.where \in {"cache", "both-emptycache"} -> << <<Target(x), <<>>>> >>
+                           [] x.where = "both-emptydisk" -> << <<Target(x), Body(CACHE)>> >>
+                           [] OTHER -> <<>>)
     [] OTHER -> <<>>
 
 Cx(x) == [Cx0 EXCEPT !.path = TOPS[x.top], !.fs = FilesOf(x), !.cache = CacheOf(x)]
@@ -111,13 +119,15 @@ NestedAndLoop ==
   /\ (c.g \in {"nested", "nestedsub"} /\ st.status # "run") => st.status = "ok" /\ st.sink.acc = <<60, 40, 91>> \o NEST \o <<58, 86, 124, 87, 93, 41, 62>>
   /\ (c.g = "loop" /\ st.status # "run") =>
         st.status = "ok" /\ st.sink.acc = Flatten([i \in 1..3 |-> <<91>> \o DISK \o <<58>> \o IntText(i) \o <<124, 93, 44>>]) \o <<86>>
+EmptyIsIncluded == (c.g = "empty" /\ st.status # "run") =>
+                     st.status = "ok" /\ st.sink.acc = (IF c.where = "both-emptycache" THEN <<60, 91>> \o DISK \o <<58, 86, 124, 87, 93, 62>> ELSE <<60, 62>>)
 FailuresFail == (c.g = "fail" /\ st.status # "run") => st.status = "error"
 \* the includer's variables are untouched by the include (it renders with a copy)
 IncluderEnvKept == \A j \in 1..Len(st.k) : (st.k[j].f = "seq" /\ st.k[j].end = "include") => Same(Lookup(st.k[j].aux, VV), Str(<<86>>)) \/ c.g = "loop"
 
 IdOf(x) ==
   CASE x.g = "basic" -> "basic-" \o ToString(x.top) \o "-" \o x.rel \o "-" \o x.arg \o "-" \o x.where \o "-" \o ToString(x.decoy)
-    [] x.g \in {"nested", "nestedsub"} -> x.g \o "-" \o ToString(x.top) \o "-" \o x.where
+    [] x.g \in {"nested", "nestedsub", "empty"} -> x.g \o "-" \o ToString(x.top) \o "-" \o x.where
     [] x.g = "loop" -> "loop-" \o ToString(x.top)
     [] x.g = "fail" -> "fail-" \o ToString(x.top) \o "-" \o x.how
 EmitCase == st.status # "run" =>
